@@ -3,10 +3,10 @@ namespace Sqlc.Gen
 /-- facts read off cmd.Generate's package loop -/
 def parseFailSetsErrored : Bool := true
 def parseFailAction : String := "brk"
-def genFailSetsErrored : Bool := false
+def genFailSetsErrored : Bool := true
 def genFailAction : String := "cont"
-def gateAfterLoop : Bool := false
-def gateReturnsNilAndError : Bool := false
+def gateAfterLoop : Bool := true
+def gateReturnsNilAndError : Bool := true
 def finalReturnIsOutput : Bool := true
 def outputWritesOffSuccessPath : Nat := 0
 def genCmdExitsOnError : Bool := true
